@@ -687,3 +687,61 @@ def deep(seed, kind, mode):
     if kind in ("gen", "agen"):
         lines.append("    if False: yield")
     return "\n".join(lines) + "\n"
+
+
+def reentrant_programs(kind, mode):
+    """one manager *object* entered twice in one frame (a re-entrant lock, a nestable transaction or span):
+    directly nested, with another manager in between, and as two items of one statement"""
+    if kind not in ("coro", "gen", "agen", "sync"):
+        return []
+    is_async = kind in ("coro", "agen")
+    kw = "async with" if is_async else "with"
+    ctor = "A" if is_async else "S"
+    rctor = "RA" if is_async else "RS"
+    out = []
+    for shape in ("nested", "between", "items", "nested_exc"):
+        lines = []
+        kctr = [0]
+
+        def nk():
+            kctr[0] += 1
+            return kctr[0]
+
+        def emit(ind, t):
+            lines.append("    " * ind + t)
+
+        def sus(ind):
+            k = nk()
+            if mode == "running":
+                emit(ind, "P(%d)" % k)
+            elif kind == "coro" or (kind == "agen" and k % 2):
+                emit(ind, "await sus(%d)" % k)
+            else:
+                emit(ind, "yield pre(%d)" % k)
+                emit(ind, "post(%d)" % k)
+
+        emit(0, ("async def f0():" if is_async else "def f0():"))
+        emit(1, "m = %s(%d)" % (rctor, nk()))
+        sus(1)
+        if shape == "items":
+            emit(1, "%s m, m as again:" % kw)
+            sus(2)
+        else:
+            emit(1, "%s m as first:" % kw)
+            sus(2)
+            ind = 2
+            if shape == "between":
+                emit(ind, "%s %s(%d):" % (kw, ctor, nk()))
+                ind += 1
+                sus(ind)
+            emit(ind, "%s m:" % kw)
+            sus(ind + 1)
+            if shape == "nested_exc":
+                emit(ind + 1, "if D(): raise E2()")
+            sus(ind)
+        sus(1)
+        emit(1, "return" if kind == "agen" else "return 3")
+        if kind in ("gen", "agen"):
+            emit(1, "if False: yield")
+        out.append((shape, "\n".join(lines) + "\n"))
+    return out
